@@ -190,6 +190,32 @@ func (e *Emb) prefix(p [3]int, rng *rand.Rand) netip.Prefix {
 	return netip.PrefixFrom(e.addr6(p[1], mode, rng), bits)
 }
 
+// outside returns a prefix that is disjoint from the abstract universe: one of the fixed upper bits is
+// flipped inside the prefix length.  Loading such prefixes changes no expected answer; they make the real
+// list long (sort, merge and binary search at realistic sizes, the universe in the middle of other entries).
+func (e *Emb) outside(rng *rand.Rand) netip.Prefix {
+	j := rng.Intn(e.Off)
+	b := e.b16
+	fill(b[:], j+1, rng.Intn(2), rng)
+	b[j/8] ^= 0x80 >> uint(j%8)
+	return netip.PrefixFrom(netip.AddrFrom16(b), j+1+rng.Intn(128-j))
+}
+
+func (e *Emb) pad(pf []netip.Prefix, rng *rand.Rand) []netip.Prefix {
+	if e.Off == 0 || rng.Intn(3) != 0 {
+		return pf
+	}
+	k := []int{2, 9, 40}[rng.Intn(3)]
+	out := append([]netip.Prefix(nil), pf...)
+	for i := 0; i < k; i++ {
+		at := rng.Intn(len(out) + 1)
+		out = append(out, netip.Prefix{})
+		copy(out[at+1:], out[at:])
+		out[at] = e.outside(rng)
+	}
+	return out
+}
+
 // text renders a prefix the way a user may write it.
 func text(p netip.Prefix, rng *rand.Rand) string {
 	a := p.Addr()
@@ -404,9 +430,13 @@ func replayBeh(idx int, b *Beh, rng *rand.Rand, env *plugEnv) {
 		ipsetAt := rng.Intn(len(allPerms)) // the ip_set plugin is driven once per embedding, on a random load order
 		for pi, perm := range allPerms {
 			pf := make([]netip.Prefix, n)
-			txt := make([]string, n)
 			for i, k := range perm {
 				pf[i] = e.prefix(b.Ps[k], rng)
+			}
+			pf = e.pad(pf, rng) // semantics-preserving padding with prefixes outside the universe
+			n := len(pf)
+			txt := make([]string, n)
+			for i := range pf {
 				txt[i] = text(pf[i], rng)
 			}
 			// --- API 1: List.Append / Sort / Contains (prefix values incl. host bits)
